@@ -197,6 +197,21 @@ func (st *connState) OnTraffic(c gnet.Conn) gnet.Action {
 	}
 	cb := st.pc
 	st.pc++
+	// what Next returned earlier in this callback stays the handler's until the callback returns
+	// ("buf must not be used in a new goroutine" - it may be used in this one)
+	type heldNext struct {
+		got, want []byte
+		what      string
+	}
+	var held []heldNext
+	defer func() {
+		for _, h := range held {
+			if !bytes.Equal(h.got, h.want) {
+				st.failf("in-next-changed", "the %d bytes returned by %s earlier in this callback changed before the callback returned (first difference at %d)", len(h.want), h.what, firstDiff(h.got, h.want))
+				break
+			}
+		}
+	}()
 	for _, o := range acts {
 		avail := c.InboundBuffered()
 		n := size(o.K, avail)
@@ -272,6 +287,8 @@ func (st *connState) OnTraffic(c gnet.Conn) gnet.Action {
 			}
 			if err != nil || !bytes.Equal(b, st.expect(st.consumed, want)) {
 				st.failf("in-next", "Next(%d) with %d available: err %v, %d bytes, first difference at %d", n, avail, err, len(b), firstDiff(b, st.expect(st.consumed, want)))
+			} else if len(b) > 0 {
+				held = append(held, heldNext{b, append([]byte(nil), b...), fmt.Sprintf("Next(%d)", n)})
 			}
 			st.consumed += len(b)
 		case "read":
